@@ -413,13 +413,14 @@ func run(c *runner.Ctx) {
 			json.Unmarshal([]byte(one), &choices)
 			x := ex.Replay(choices)
 			if dv := ex.Diverged(); dv != "" {
-				fmt.Fprintf(os.Stderr, "HARNESS-ERROR: %s in a fresh process (threads %v)\n", dv, names)
-				os.Exit(3)
+				vsched.WriteChildDiverged(dv)
+				res = vsched.Result{Execs: 1}
+			} else {
+				ok := ex.Check(x)
+				b, _ := json.Marshal(map[string]interface{}{"exec": x, "ok": ok})
+				os.WriteFile(os.Getenv("VERIF_ONE_OUT"), b, 0644)
+				res = vsched.Result{Execs: 1, Steps: int64(len(x.Trace))}
 			}
-			ok := ex.Check(x)
-			b, _ := json.Marshal(map[string]interface{}{"exec": x, "ok": ok})
-			os.WriteFile(os.Getenv("VERIF_ONE_OUT"), b, 0644)
-			res = vsched.Result{Execs: 1, Steps: int64(len(x.Trace))}
 		} else {
 			res = ex.Explore()
 		}
